@@ -36,16 +36,47 @@ def _execute_all(mod, cases):
 
 
 def _evaluate(mod, cases, outs, tag):
+    """Evaluate all cases in Coq.  A case may expand to several Coq terms (emit_all: one per transition of
+    a history); a case fails a criterion when any of its terms does; res["sub"][kind][case] = first failing term."""
     terms, idx = [], []
     for i, (c, o) in enumerate(zip(cases, outs)):
         if "harness_error" in o:
             continue
-        terms.append(mod.emit(c, o))
-        idx.append(i)
+        if hasattr(mod, "emit_all"):
+            for j, t in enumerate(mod.emit_all(c, o)):
+                terms.append(t)
+                idx.append((i, j))
+        else:
+            terms.append(mod.emit(c, o))
+            idx.append((i, 0))
     res = fw.eval_cases(mod.ID, mod.RUNNER, mod.CASE_TYPE, terms, tag=tag)
-    back = {k: {idx[j] for j in res[k]} for k in ("corr", "spec", "wf")}
+    back = {"sub": {}}
+    for k in ("corr", "spec", "wf"):
+        back[k] = set()
+        back["sub"][k] = {}
+        for j in sorted(res[k]):
+            ci, sj = idx[j]
+            back[k].add(ci)
+            back["sub"][k].setdefault(ci, []).append(sj)
     back["shards"] = res["shards"]
+    back["terms"] = len(terms)
     return back
+
+
+def _classify(mod, c, o, kind, res=None, i=None):
+    if not hasattr(mod, "classify"):
+        return None
+    if hasattr(mod, "emit_all"):
+        subs = None
+        if res is not None and i is not None:
+            subs = res.get("sub", {}).get(kind, {}).get(i)
+        if not subs:
+            return mod.classify(c, o, kind, None)
+        keys = [mod.classify(c, o, kind, sj) for sj in subs]
+        if any(k is None for k in keys):
+            return None          # at least one failing transition is not a listed finding
+        return keys[0]
+    return mod.classify(c, o, kind)
 
 
 def _size(case):
@@ -120,7 +151,7 @@ def run(pid: str, tier: str, seed: int, replay: str | None = None) -> int:
     for i in herr[:3]:
         outc.internal.append(f"harness error on case {i}: {outs[i]['harness_error']}")
 
-    res = {"corr": set(), "spec": set(), "wf": set(), "shards": 0}
+    res = {"corr": set(), "spec": set(), "wf": set(), "shards": 0, "sub": {}, "terms": 0}
     if ok_run and cases:
         try:
             res = _evaluate(mod, cases, outs, tag="cases")
@@ -145,10 +176,17 @@ def run(pid: str, tier: str, seed: int, replay: str | None = None) -> int:
 
     spec_fail = (res["spec"] | py_fail)
     corr_fail = res["corr"] - spec_fail
+    if os.environ.get("VERIF_DEBUG"):
+        for kind_ in ("corr", "spec"):
+            for i in sorted(res[kind_])[:int(os.environ.get("VERIF_DEBUG"))]:
+                print(f"DEBUG {kind_} case {i} subs={res.get('sub', {}).get(kind_, {}).get(i)}: "
+                      f"{mod.describe(cases[i], outs[i]) if hasattr(mod, 'describe') else ''}")
+                print("   ", json.dumps(cases[i], default=str)[:1500])
+                print("   ", json.dumps(outs[i], default=str)[:2500])
 
     def report(i, kind, suffix=""):
         c, o = cases[i], outs[i]
-        key = mod.classify(c, o, kind) if hasattr(mod, "classify") else None
+        key = _classify(mod, c, o, kind, res, i)
         if key and key in known_keys:
             line = f"KNOWN-FINDING: property={pid} {known_keys[key]['what']} [{key}]"
             if line not in outc.known:
@@ -182,10 +220,12 @@ def run(pid: str, tier: str, seed: int, replay: str | None = None) -> int:
                     r2 = _evaluate(mod, ec, eo, tag="search")
                     bad |= r2["spec"]
                 except Exception:
-                    pass
+                    r2 = None
+            else:
+                r2 = None
             newbad = []
             for i in sorted(bad):
-                key = mod.classify(ec[i], eo[i], "spec") if hasattr(mod, "classify") else None
+                key = _classify(mod, ec[i], eo[i], "spec", r2, i)
                 if not (key and key in known_keys):
                     newbad.append(i)
             if newbad:
@@ -277,7 +317,7 @@ def run(pid: str, tier: str, seed: int, replay: str | None = None) -> int:
             "samples": samples,
             "traces_validated_against_impl": len(cases) - len(herr),
             "corr_fail": len(res["corr"]), "spec_fail": len(spec_fail), "outside_domain": len(res["wf"]),
-            "shards": res["shards"], "distribution": dist,
+            "shards": res["shards"], "coq_terms_evaluated": res.get("terms", 0), "distribution": dist,
             "tables_regenerated_changed": bool(changed),
             "proofs_build_ok": bool(ok_prf), "runner_build_ok": bool(ok_run),
             "search_cases": searched,
